@@ -48,6 +48,12 @@ MUTANTS = [
     {"id": "C12-reset-skips-cas-loop", "prop": "C12", "edits": [
         R(ATOM, "            oldval = self._state\n            self._validate(v)\n            if self._compare_and_set(oldval, v):\n                self._notify_watches(oldval, v)\n                return v",
           "            oldval = self._state\n            self._validate(v)\n            self._state = v\n            if True:\n                self._notify_watches(oldval, v)\n                return v")]},
+    {"id": "C12-add-watch-without-lock", "prop": "C12", "edits": [
+        R(REF, "        with self._lock:\n            self._watches = self._watches.assoc(k, wf)\n            return self",
+          "        if True:\n            self._watches = self._watches.assoc(k, wf)\n            return self")]},
+    {"id": "C12-notify-uses-watches-read-before-cas", "prop": "C12", "edits": [
+        R(ATOM, "            oldval = self._state\n            newval = f(oldval, *args, **kwargs)\n            self._validate(newval)\n            if self._compare_and_set(oldval, newval):\n                self._notify_watches(oldval, newval)",
+          "            oldval = self._state\n            watches = self._watches\n            newval = f(oldval, *args, **kwargs)\n            self._validate(newval)\n            if self._compare_and_set(oldval, newval):\n                for wk, wf in watches.items():\n                    wf(wk, self, oldval, newval)")]},
     # ---- C13
     {"id": "C13-revert-F5-delay-lock", "prop": "C13", "revert": "2b432f4"},
     {"id": "C13-revert-F9-future-timeout", "prop": "C13", "revert": "528fb13"},
